@@ -2100,6 +2100,10 @@ def main():
     report = {"ok": True, "files": {}, "errors": [], "changed": []}
     jobs = [("Ed25519Arith.lean", gen_ed25519), ("IntGroupArith.lean", gen_intgroup), ("UtilArith.lean", gen_util), ("Consts.lean", gen_consts),
             ("ProtoShape.lean", gen_proto), ("EdShape.lean", gen_edshape)]
+    from py2lean_protoflow import gen_protoflow
+    jobs.append(("ProtoFlow.lean", gen_protoflow))
+    from py2lean_groupshape import gen_groupshape
+    jobs.append(("GroupShape.lean", gen_groupshape))
     for fname, job in jobs:
         try:
             txt, h = job()
